@@ -43,6 +43,19 @@ load that finds the .fai/.agp pair written by the first one (warm).  (Names cont
 or 0x1C-0x1F could not be loaded warm on the pinned tree - load_index cut the .fai line at them - repaired in
 /repo.)
 
+White space between '>' and the name (`> ctg1 description`, `>\tctg1`: written by some older tools, and the indexer
+documents it as allowed) is not part of the name and not a name of its own: the name is the first token of the
+header line behind '>' that is delimited by ASCII white space, so such a record is called `ctg1`, and every clause
+holds for the file exactly as for `>ctg1 description` (the byte offset of the first residue counts the extra bytes
+of the header line).  `> x` and `>x` in one file are two records of the same name: the file must be rejected.
+
+Very long lines.  "Uniform line width within a record" puts no upper limit on the width: assemblers that do not wrap
+their output write each record on one line of megabytes ("unwrapped" FASTA).  Columns four and five are then the
+length of that line (without / with its terminator), whatever its size, and random access beyond any power-of-two
+distance into the line returns the residues that stand there.  Such files are generated from a recipe (record
+length, seed of the residue string, positions of the non-ACGT runs) so that a failing input stays small; the
+sizes are kept at 1-2.5 MB per file (one file in the quick tier).
+
 Known finding "c04-record-name-hash" (recorded in /verif/known_findings.json, not repaired): a record whose name
 STARTS with '#' is written to the .agp cache as a line that the AGP reader takes for a comment, so the assembly
 loaded warm lacks the scaffold of that record (and streaming it back omits the record).  A failure carries that
@@ -53,6 +66,7 @@ access, tilings of the other records, any other set or order of scaffolds) is ju
 and an unclassified failure of a file is reported in preference to a classified one.
 """
 
+import functools
 import io
 import itertools
 import locale
@@ -69,6 +83,7 @@ from . import fasta_gen as G
 from .common import Collector
 
 SMALL = 14  # records up to this length get every interval fetched
+FAR_POINTS = (8192, 65536, 131072, 1 << 20, 3 << 19, 1 << 21)
 KNOWN_HASH = "c04-record-name-hash"
 MAX_KNOWN = 4  # failures of a known class kept in the failure list
 
@@ -145,9 +160,10 @@ def plain_header(r):
 
 def header_note(case):
     """the header lines, appended to a failure message when they are not of the plain `>s1 desc` kind"""
-    if all(plain_header(r) for r in case.records):
+    leads = getattr(case, "leads", None) or [b""] * len(case.records)
+    if all(plain_header(r) for r in case.records) and not any(leads):
         return ""
-    return "  [header lines: " + ", ".join(repr(b">" + r.name.encode() + r.desc)[1:] for r in case.records)[:400] + "]"
+    return "  [header lines: " + ", ".join(repr(b">" + ld + r.name.encode() + r.desc)[1:] for r, ld in zip(case.records, leads))[:400] + "]"
 
 
 def header_names(quick):
@@ -164,23 +180,168 @@ def header_names(quick):
     return warm, direct, hashed
 
 
+LEADS = (b" ", b"\t", b"  ", b" \t", b"\x0b", b"\x0c", b"\t\x0c ")  # ASCII white space between '>' and the name
+
+KI, MI = 1 << 10, 1 << 20
+
+
+def long_files(quick):
+    """
+    -> (recipe, line width, eol, final newline, buffer sizes) of files with very long lines; widths beyond the longest
+    record mean "unwrapped": every record on one line.  Sizes: no file above 2.5 MB
+    """
+    unwrapped = 4 * MI
+    small = lambda nm, n, sd: [nm, n, sd, [[n // 3, 7]] if n > 30 else [], " single line record"]  # noqa: E731
+
+    def runs(n, *marks):
+        """non-ACGT runs at the marked distances - ending exactly there, crossing it, starting exactly there, in turn - and one at the very end"""
+        out = []
+        for i, m in enumerate(marks):
+            if 400 < m and m + 40 < n:
+                out.append([[m - 60, 60], [m - 9, 21], [m, 33]][i % 3])
+        return [*sorted(out), [n - 5, 5]]
+
+    n1 = MI + 128 * KI + 5
+    # the one file of the quick tier: an unwrapped assembly, the long record between two short ones; its runs
+    # cross the 1 MiB distance, and end exactly at / start shortly behind the 64 KiB distance
+    yield [small("short_1", 500, 1), ["unwrapped_long", n1, 2, [[64 * KI - 60, 60], [64 * KI + 20, 10], [MI - 9, 21], [n1 - 5, 5]], " single line record"], small("short_2", 77, 3)], unwrapped, b"\n", True, [250_000]
+    if quick:
+        return
+    sd = 10
+    # unwrapped records around each distance (exactly the distance, one less, one more, well beyond)
+    for base, deltas in ((8 * KI, (-1, 0, 1, 1234)), (64 * KI, (-1, 0, 1, 4321)), (MI, (-2, -1, 0, 1, 2, 300_007)), (2 * MI, (-1, 0, 1, 200_003))):
+        for dl in deltas:
+            n = base + dl
+            for eol, fin in ((b"\n", True), (b"\r\n", True), (b"\n", False)) if base < MI or dl in (1, 300_007) else ((b"\n", True),):
+                sd += 1
+                recs = [small("a", 61, sd), ["long", n, sd, runs(n, 8 * KI, 64 * KI + 1, MI, 2 * MI + 1), ""], small("z", 9, sd + 1)]
+                if not fin:
+                    recs = recs[:2] if sd % 2 else recs  # the long line as the unterminated last line / a short one after it
+                yield recs, unwrapped, eol, fin, [250_000] if base >= MI else [1, 250_000, 3 * MI]
+    # the long record first / last / the only one; two long records in one file; CRLF
+    n = MI + 70_001
+    for recs in (
+        [["long", n, 40, runs(n, MI), " d"], small("z", 100, 41)],
+        [small("a", 100, 42), ["long", n, 43, runs(n, MI + 1), "\tx"]],
+        [["only", n, 44, runs(n, 64 * KI, MI), ""]],
+        [["l1", n, 45, [[0, 12], [MI - 1, 1]], ""], ["l2", n - 3, 46, [[MI, n - 3 - MI]], " tail of N"]],
+    ):
+        for eol in (b"\n", b"\r\n"):
+            yield recs, unwrapped, eol, True, [250_000, 3 * MI]
+    # wrapped records whose line width is beyond the distance: two full lines and a part, an exact multiple
+    for w, n in ((MI + 17, 2 * (MI + 17) + 99_991), (MI + 1, 2 * (MI + 1)), (64 * KI + 3, 5 * (64 * KI + 3) + 11), (8 * KI + 1, 40 * (8 * KI + 1))):
+        for eol, fin in ((b"\n", True), (b"\r\n", False)):
+            sd += 1
+            yield [small("a", 61, sd), ["wide", n, sd, runs(n, 64 * KI, w, 2 * w + 1), " wrapped"], small("z", 9, sd + 1)], w, eol, fin, [250_000]
+
+
 class Case(G.FastaCase):
     """
-    FastaCase whose "no final newline" also covers a last record without residues: then the last line of the
-    file is that record's header and it is the header that lacks its terminator (fasta_gen's renderer only
-    ever leaves the terminator off a sequence line)
+    FastaCase with two additions:
+      * "no final newline" also covers a last record without residues: then the last line of the file is that
+        record's header and it is the header that lacks its terminator (fasta_gen's renderer only ever leaves
+        the terminator off a sequence line)
+      * leads: per record, ASCII white space written between '>' and the name (b"" = none)
+    and, for files with very long lines, the recipe the records were made from (spec() then records the recipe
+    in place of megabytes of residues)
     """
+
+    def __init__(self, records, width, eol=b"\n", final_newline=True, leads=None, recipe=None):
+        super().__init__(records, width, eol, final_newline)
+        self.leads = [bytes(x) for x in leads] if leads else [b""] * len(self.records)
+        self.recipe = recipe
+
+    def spec(self):
+        if self.recipe is None:
+            d = super().spec()
+        else:
+            d = {"long": self.recipe, "width": self.width, "eol": "CRLF" if self.eol == b"\r\n" else "LF", "final_newline": self.final_newline}
+        if any(self.leads):
+            d["leads"] = [x.decode("latin-1") for x in self.leads]
+        return d
+
+    @classmethod
+    def from_spec(cls, d):
+        if "long" in d:
+            records = [G.Rec(nm, long_seq(n, sd, gaps), desc.encode("latin-1")) for nm, n, sd, gaps, desc in d["long"]]
+            case = cls(records, d["width"], b"\r\n" if d["eol"] == "CRLF" else b"\n", d["final_newline"], recipe=d["long"])
+        else:
+            case = super().from_spec(d)
+        if d.get("leads"):
+            case.leads = [x.encode("latin-1") for x in d["leads"]]
+        return case
+
+    def key(self):
+        if self.recipe is not None:
+            return ("long", repr(self.recipe), self.width, self.eol, self.final_newline, tuple(self.leads))
+        return super().key() + ((tuple(self.leads),) if any(self.leads) else ())
 
     def render(self):
         data, layout = super().render()
+        if any(self.leads):
+            # put the white space behind each '>' and move the offsets of the residues along
+            out = bytearray()
+            prev = shift = 0
+            for r, lead, lay in zip(self.records, self.leads, layout):
+                after_gt = lay["offset"] - len(r.name.encode() + r.desc + self.eol)
+                out += data[prev:after_gt] + lead
+                prev = after_gt
+                shift += len(lead)
+                lay["offset"] += shift
+            data = bytes(out + data[prev:])
         if self.records and not self.records[-1].seq and not self.final_newline:
             data = data[: -len(self.eol)]
             layout[-1]["offset"] = len(data)
         return data, layout
 
 
-def as_case(case):
-    return Case(case.records, case.width, case.eol, case.final_newline)
+# residue strings of megabytes, from a recipe: pseudo-random (hence aperiodic: a shift by any number of bytes shows)
+# ACGTacgt from a seed, with non-ACGT runs laid over it at the given 0-based positions
+ACGT_TABLE = bytes(b"ACGTacgtACGTACGT"[i % 16] for i in range(256))
+OTHER_FILL = b"NnNNRYKMnrykSWBDHVNNNnnN"
+
+
+@functools.lru_cache(maxsize=4)
+def _long_seq(n, seed, gaps):
+    seq = bytearray(random.Random(f"c04-long-{seed}").randbytes(n).translate(ACGT_TABLE))
+    for start, ln in gaps:
+        seq[start : start + ln] = (OTHER_FILL * (ln // len(OTHER_FILL) + 1))[:ln]
+    assert len(seq) == n
+    return bytes(seq)
+
+
+def long_seq(n, seed, gaps):
+    return _long_seq(n, seed, tuple((a, b) for a, b in gaps))
+
+
+def long_case(recipe, width, eol=b"\n", final_newline=True):
+    """recipe: [[name, residue count, seed, [[0-based start, length] of each non-ACGT run], description (latin-1 str)]]"""
+    return Case.from_spec({"long": recipe, "width": width, "eol": "CRLF" if eol == b"\r\n" else "LF", "final_newline": final_newline})
+
+
+BIG = 50_000  # the per-residue oracles of records longer than this are computed once per residue string
+
+
+@functools.lru_cache(maxsize=6)
+def _tiling_big(seq):
+    return G.tiling(seq)
+
+
+@functools.lru_cache(maxsize=6)
+def _masked_big(seq):
+    return G.masked(seq)
+
+
+def tiling_of(seq):
+    return _tiling_big(seq) if len(seq) > BIG else G.tiling(seq)
+
+
+def masked_of(seq):
+    return _masked_big(seq) if len(seq) > BIG else G.masked(seq)
+
+
+def as_case(case, leads=None):
+    return Case(case.records, case.width, case.eol, case.final_newline, leads=leads)
 
 
 def short(e):
@@ -243,7 +404,7 @@ def check_index(case, layout, idx, asm, what, reloaded=False):
         msgs.append(known_hash(text + " (the scaffolds of the records whose name starts with '#' are missing after the .agp cache was read back)"))
         records = [r for r in records if r.name not in lost]
     for r, sc in zip(records, scaffolds):
-        want = [("G", t[1]) if t[0] == "G" else ("F", r.name, t[1], t[2], 1) for t in G.tiling(r.seq)]
+        want = [("G", t[1]) if t[0] == "G" else ("F", r.name, t[1], t[2], 1) for t in tiling_of(r.seq)]
         got = rows_of(sc)
         if got != want:
             msgs.append(f"{what}: tiling of {r.name} ({r.seq.decode('latin-1')[:40]}) is {got}, maximal runs are {want}")
@@ -257,11 +418,11 @@ def check_stream_back(case, fi, asm, line_length, what, reloaded=False):
     except Exception as e:  # noqa: BLE001
         return [f"{what}: streaming the derived assembly raised {e!r}"]
     # parse_written_fasta reads header bytes as latin-1: compare the bytes of the names
-    want = [(r.name.encode().decode("latin-1"), G.masked(r.seq)) for r in case.records]
+    want = [(r.name.encode().decode("latin-1"), masked_of(r.seq)) for r in case.records]
     msgs = [f"{what}: streamed back, {m}" for m in G.compare_written_fasta(out.getvalue(), want, line_length)]
     lost = hash_lost(case)
     if msgs and reloaded and lost:
-        kept = [(r.name.encode().decode("latin-1"), G.masked(r.seq)) for r in case.records if r.name not in lost]
+        kept = [(r.name.encode().decode("latin-1"), masked_of(r.seq)) for r in case.records if r.name not in lost]
         got_names = [h for h, _ in G.parse_written_fasta(out.getvalue())[0]]
         if got_names == [n for n, _ in kept]:
             # exactly the '#'-named records are omitted (known finding); the records written are judged
@@ -287,7 +448,10 @@ def check_random_access(case, fi, what):
                 spans = [(s, e) for s in range(1, n + 1) for e in range(s, n + 1)]
             else:
                 w = case.width
-                pts = sorted({1, 2, w - 1, w, w + 1, 2 * w, 2 * w + 1, n - w, n - 1, n} & set(range(1, n + 1)))
+                pts = {1, 2, w - 1, w, w + 1, 2 * w, 2 * w + 1, n - w, n - 1, n}
+                # positions around powers of two far into a long line (read sizes of buffered / capped readers)
+                pts |= {p + d for p in FAR_POINTS if p < n for d in (-1, 0, 1)}
+                pts = sorted(p for p in pts if 1 <= p <= n)
                 spans = [(s, e) for s in pts for e in pts if s <= e]
             for s, e in spans:
                 got = fi.sequence_bytes(info, s, e).getvalue()
@@ -341,7 +505,8 @@ def check_cache_and_access(case, layout, path):
     # warm: make the FASTA look older than its cache so that the cache is what gets loaded
     st = path.stat()
     os.utime(path, (st.st_atime - 100, st.st_mtime - 100))
-    fi2 = FastaIndex(path, 3)
+    # (records of megabytes are streamed back in pieces of 65537 residues, not of 3)
+    fi2 = FastaIndex(path, 3 if max(len(r.seq) for r in case.records) <= BIG else 65_537)
     try:
         fi2.auto_load()
         msgs += check_index(case, layout, fi2.index, fi2.assembly, "cached index", reloaded=True)
@@ -396,22 +561,22 @@ def replay(inp):
         if inp["kind"] == "cache":
             msgs = check_cache_and_access(case, layout, path)
         else:
-            msgs = check_case_buffer(case, layout, path, inp["buffer"], line_lengths=(60, case.width))
+            msgs = check_case_buffer(case, layout, path, inp["buffer"], line_lengths=(60,) if case.recipe else (60, case.width))
         return pick(msgs) + header_note(case) if msgs else None
 
 
 def nontrivial(case):
-    return any(len(r.seq) > case.width or len(G.tiling(r.seq)) > 1 or not r.seq for r in case.records)
+    return any(len(r.seq) > case.width or len(tiling_of(r.seq)) > 1 or not r.seq for r in case.records)
 
 
-def run_case(case, col, path, buffers, sample=False, cache=True, first_only=False):
+def run_case(case, col, path, buffers, sample=False, cache=True, first_only=False, line_lengths=None):
     layout = case.write(path)
     try:
         spec = None
         nt = nontrivial(case)
         key = case.key()
         for bs in buffers:
-            msgs = check_case_buffer(case, layout, path, bs, line_lengths=(60, case.width) if bs % 3 == 1 else (60,))
+            msgs = check_case_buffer(case, layout, path, bs, line_lengths=line_lengths or ((60, case.width) if bs % 3 == 1 else (60,)))
             if msgs and not (first_only and spec):
                 spec = spec or case.spec()
                 col.fail(msgs[0] + header_note(case), {"kind": "index", "case": spec, "buffer": bs})
@@ -445,7 +610,9 @@ def run(tier, seed, **opts):
         "files whose header lines vary as bytes (names with every printable non-space ASCII character in the middle / at "
         "the end / at the start, PanSN and other '#', '|', ':' names, UTF-8 and control-byte names, names with "
         "non-ASCII white space or 0x1C-0x1F, names starting with '#'; every ASCII white-space separator; descriptions holding every "
-        "byte value but CR/LF), each with a cold-then-warm load through the .fai/.agp cache; "
+        "byte value but CR/LF; ASCII white space between '>' and the name of the first / a middle / the last / every record), "
+        "each with a cold-then-warm load through the .fai/.agp cache; files with lines of more than 8 KiB / 64 KiB / 1 MiB / 2 MiB "
+        "(unwrapped records and wide wrapped ones, made from a recipe; one such file in the quick tier); "
         "one evaluation = one (file, buffer) or (file, cache round trip); non-trivial = distinct (file, buffer) "
         "whose file has a record of more than one line, more than one run, or no residues"
     )
@@ -639,7 +806,59 @@ def run(tier, seed, **opts):
                 if len(bufs) > 6:
                     bufs = sorted(rng.sample(bufs, 6))
                 run_case(case, col, path, bufs, cache=True, first_only=True)
+        # e. white space between '>' and the name: every ASCII white-space lead, on the first / a middle / the last /
+        #    every record, beside records without lead, with and without description, records without residues,
+        #    names with '#', '|', ':' - each file indexed with small and large buffers and loaded cold-then-warm
+        crowded = allowance(4)
+        lead_names = [["ctg1"], ["s1", "s2"], ["chr1", "chr2", "chr3"], ["HG002#1#c1", "sp|P1|x"], ["a:1-2", "b", "c.1"]]
+        if not quick:
+            lead_names += [[nm] for nm in REAL_NAMES[:12]] + [list(UTF8_NAMES[i : i + 2]) for i in range(0, 6, 2) if all(map(cacheable, UTF8_NAMES[i : i + 2]))]
+        lead_descs = [b"", b" description", b"\tafter a tab", b" len=7 circular ", b"  two blanks", *([] if quick else descs6[:8])]
+        n_lead = 0
+        for li, lead in enumerate(LEADS):
+            for ni, names in enumerate(lead_names):
+                # which records carry the lead: each single one, and all of them
+                places = [{i} for i in range(len(names))] + ([set(range(len(names)))] if len(names) > 1 else [])
+                for pi, place in enumerate(places):
+                    if quick and (li + ni + pi) % 3 and not (li < 2 and ni == 0):
+                        continue
+                    for w, eol, fin in lays6 if not quick and li < 4 and ni < 3 else [lays6[(k + 1) % len(lays6)]]:
+                        if crowded():
+                            break
+                        k += 1
+                        n_lead += 1
+                        recs = [G.Rec(nm, seqs6[(k + i) % len(seqs6)], lead_descs[(k + 2 * i) % len(lead_descs)]) for i, nm in enumerate(names)]
+                        case = Case(recs, w, eol, fin, leads=[lead if i in place else b"" for i in range(len(names))])
+                        run_case(case, col, path, [1, 2, 3, 250_000] if k % 2 else [1, 5, 250_000], sample=(li, ni, pi) == (0, 0, 0), cache=True, first_only=True)
+        for i in range(0 if quick else 600):
+            if crowded():
+                break
+            base = G.random_case(rng, max_records=3, max_len=80)
+            case = as_case(base, leads=[rng.choice(LEADS) if rng.random() < 0.6 else b"" for _ in base.records])
+            if not any(case.leads):
+                case.leads[rng.randrange(len(case.leads))] = rng.choice(LEADS)
+            for r in case.records:
+                if rng.random() < 0.1:
+                    r.seq = b""
+            bufs = G.interesting_buffers(case)
+            if len(bufs) > 6:
+                bufs = sorted(rng.sample(bufs, 6))
+            k += 1
+            n_lead += 1
+            run_case(case, col, path, bufs, cache=True, first_only=True)
         n_header_files = k
+        # 7. very long lines: records written on one line (or on lines) of more than 8 KiB / 64 KiB / 1 MiB / 2 MiB,
+        #    between short one-line records; non-ACGT runs that end at, start at and cross those distances
+        crowded = allowance(4)
+        n_long = 0
+        for recipe, w, eol, fin, bufs in long_files(quick):
+            if crowded():
+                break
+            n_long += 1
+            case = long_case(recipe, w, eol, fin)
+            run_case(case, col, path, bufs, sample=n_long == 1, cache=True, first_only=True, line_lengths=(60,))
+            for memo in (_long_seq, _tiling_big, _masked_big):
+                memo.cache_clear()
         # 5. files that must be rejected
         rejected = [b"", b"\n", b"ACGT\n", b"ACGT\nAC\n"]
         for eol in (b"\n", b"\r\n"):
@@ -676,6 +895,9 @@ def run(tier, seed, **opts):
                 (b">sp|P1|x", b">sp|P1|x d"),
                 (b">chr1:1-2", b">chr1:1-2"),
                 ("\u00e01".encode(), "\u00e01 d".encode()),
+                (b"> x", b">x"),
+                (b">x d", b">\tx"),
+                (b">  x one", b"> x two"),
             ):
                 if not h1.startswith(b">"):
                     h1, h2 = b">" + h1, b">" + h2
@@ -695,7 +917,8 @@ def run(tier, seed, **opts):
             f"records among 1-3 records x layouts and {n_empty_random} random files with empty records; {n_header_files} files with "
             f"byte-level header variety ({len(warm_names)} names cold-then-warm, {len(direct_names)} indexed directly, "
             f"{len(hash_names)} names starting with '#' cold-then-warm in files of their own [known class {KNOWN_HASH}], "
-            f"{len(descs6)} separator+description byte strings); {len(rejected)} malformed files "
+            f"{len(descs6)} separator+description byte strings, {n_lead} files with white space behind '>'); {n_long} files of 1-2.5 MB "
+            f"with lines longer than 8 KiB .. 2 MiB; {len(rejected)} malformed files "
             "(no records; duplicate names incl. copies without residues and names with special characters)"
         ),
         exhaustive=False,
